@@ -146,6 +146,8 @@ def gen_ops(spec, rng, codec, fs, s, m, oid):
         # the generator only flattens primitive fields of a dependency-package request
         paths = [p for p in paths if _leaf_fd(desc, p)[1].type != FD.TYPE_MESSAGE or False]
     chosen = [p for p in paths if rng.random() < 0.6] or paths[:1]
+    # a message and a field nested in it (`widget` and `widget.name`) have no single equivalent request when both are given
+    chosen = [p for p in chosen if not any(q != p and p.startswith(q + ".") for q in chosen)]
     kw = {}
     used_oneofs = set()
     for p in chosen:
